@@ -11,8 +11,62 @@ class AuthBench:
         self.R = fw.Runner(self.O) if br.runner_ok else None
 
     def close(self):
+        try:
+            self.double_fetch_probe()
+        except Exception as e:          # (a probe that cannot run decides nothing)
+            self.chk.notes.append({"double_fetch_probe": "did not run: " + repr(e)[:200]})
         if self.R:
             self.R.close()
+
+    def double_fetch_probe(self):
+        """A response whose fields read differently from one read to the next (a property, a proxy, a buffer another thread rewrites): X on the first read - what the
+        ceremony checks want to see, but unsigned - and Y afterwards - genuinely signed, for ANOTHER ceremony.  Presented constantly, X and Y are each refused; if the
+        sequenced record is accepted, what was checked is not what was verified (a field fetched twice within one call)."""
+        if getattr(self, "_df_done", False):
+            return
+        self._df_done = True
+        import webauthn, hashlib
+        from webauthn.helpers.structs import AuthenticationCredential, AuthenticatorAssertionResponse
+        from harness import authcat, authsim
+        chk = self.chk
+        for kind in ("ES256-P256", "EdDSA"):
+            s = authcat.Scn(kind)
+            pol, good = s.build()
+            cred = good.cred
+            # Y: a genuine assertion of the same credential for another challenge / another RP / without user verification
+            variants = []
+            cdj2 = authsim.client_data("webauthn.get", b"another-challenge-of-another-ceremony", s.origin)
+            variants.append(("clientDataJSON", {"client_data_json": [good.cdj, cdj2]}, dict(client_data_json=cdj2, authenticator_data=good.ad, signature=cred.sign(good.ad + hashlib.sha256(cdj2).digest())), pol))
+            cdj3 = authsim.client_data("webauthn.get", s.challenge, "https://evil.example")
+            variants.append(("clientDataJSON (origin)", {"client_data_json": [good.cdj, cdj3]}, dict(client_data_json=cdj3, authenticator_data=good.ad, signature=cred.sign(good.ad + hashlib.sha256(cdj3).digest())), pol))
+            ad2 = authsim.authdata("other-rp.example", s.flags, s.count)
+            variants.append(("authenticatorData (RP ID hash)", {"authenticator_data": [good.ad, ad2]}, dict(client_data_json=good.cdj, authenticator_data=ad2, signature=cred.sign(ad2 + hashlib.sha256(good.cdj).digest())), pol))
+            ad3 = authsim.authdata(s.rp_id, 0x01, s.count)
+            ad_uv = authsim.authdata(s.rp_id, 0x05, s.count)
+            pol_uv = impl.AuthPolicy(pol.challenge, pol.rp_id, pol.origin, pol.pubkey, pol.count, True)
+            variants.append(("authenticatorData (UV flag)", {"authenticator_data": [ad_uv, ad3]}, dict(client_data_json=good.cdj, authenticator_data=ad3, signature=cred.sign(ad3 + hashlib.sha256(good.cdj).digest())), pol_uv))
+            ad4 = authsim.authdata(s.rp_id, s.flags, 0)
+            variants.append(("authenticatorData (counter)", {"authenticator_data": [good.ad, ad4]}, dict(client_data_json=good.cdj, authenticator_data=ad4, signature=cred.sign(ad4 + hashlib.sha256(good.cdj).digest())), pol))
+            for what, seqs, y_fields, P in variants:
+                y_fields = dict(y_fields, user_handle=None)
+                cred_fields = dict(id=good.id_text, raw_id=good.cred_id, type="public-key", authenticator_attachment=None)
+                x_fields = dict(y_fields)
+                for k_, sq in seqs.items():
+                    x_fields[k_] = sq[0]
+                const = []
+                for fields in (x_fields, y_fields):
+                    rec = AuthenticationCredential(response=AuthenticatorAssertionResponse(**fields), **cred_fields)
+                    const.append(impl.outcome(lambda: webauthn.verify_authentication_response(credential=rec, **P.kwargs()), impl.pr_verified_auth))
+                for later in (1, 2):
+                    seqs2 = {k_: [sq[0]] * later + [sq[1]] for k_, sq in seqs.items()}
+                    rec = impl.sequenced_record(AuthenticationCredential, AuthenticatorAssertionResponse, cred_fields, y_fields, seqs2)
+                    o = impl.outcome(lambda: webauthn.verify_authentication_response(credential=rec, **P.kwargs()), impl.pr_verified_auth)
+                    chk.evals += 3
+                    if o.startswith("OK") and not const[0].startswith("OK") and not const[1].startswith("OK"):
+                        chk.violation(f"an assertion whose {what} reads as one value on read {later} and as another afterwards is accepted although it is refused under EITHER value: what the checks saw is not what the signature covers (a field fetched twice within one call)",
+                                      f"double-fetch auth {what} {kind}", {"entry": "verify_authentication_response", "policy": P.describe(), "kind": kind, "field": what, "first_reads": {k_: v[0].hex() for k_, v in seqs.items()},
+                                                                            "later_reads": {k_: v[1].hex() for k_, v in seqs.items()}, "signature": y_fields["signature"].hex(), "outcome": o, "outcome_under_first_value": const[0], "outcome_under_later_value": const[1]})
+                        break
 
     def run_case(self, pol, a, form, expect, label, replay_extra=None):
         """expect: 'accept' | 'reject' | None.  Returns (impl_line, model_line)."""
